@@ -126,7 +126,7 @@ def run(ctx: Ctx) -> None:
     jobs = []
     for kind in ("mem", "sqlite"):
         for i, sc in enumerate(c02.SCENARIOS):
-            nact = len(sc["pollers"]) + (2 if (sc.get("recovery") or sc.get("kill")) else 0)
+            nact = len(sc["pollers"]) + (2 if (sc.get("recovery") or sc.get("kill")) else 0) + (1 if sc.get("batch") else 0)
             if nact == 2:
                 jobs.append((kind, i, "dfs", 1, 120 if ctx.quick else 3000, ctx.seed, known))
             jobs.append((kind, i, "rand", 0, 40 if ctx.quick else 1500, ctx.seed + 11, known))
